@@ -7,7 +7,7 @@ rows, stats = [], {}
 for d in sorted(glob.glob(ROOT + '/seeded/C*/')):
     m = json.load(open(d + 'meta.json'))
     name = os.path.basename(d.rstrip('/'))
-    rnd = 'round 5' if '-r5-' in name else 'round 4' if '-r4-' in name else 'round 3' if '-r3-' in name else 'round 2' if '-r2-' in name else 'round 1'
+    rnd = 'round 6' if '-r6-' in name else 'round 5' if '-r5-' in name else 'round 4' if '-r4-' in name else 'round 3' if '-r3-' in name else 'round 2' if '-r2-' in name else 'round 1'
     checks = m.get('checks', {})
     if m.get('superseded'):
         caught, missed = ['(superseded: ' + m['superseded'][:160] + ')'], []
